@@ -14,7 +14,6 @@ package verifcheck
 //   - c06DecayRef: the documented time-decay factor as a function of "now" (bracketed by the caller).
 
 import (
-	"fmt"
 	"math"
 	"sort"
 	"strconv"
@@ -459,4 +458,3 @@ func c06SortedKeys(m map[string]bool) []string {
 	return out
 }
 
-var _ = fmt.Sprintf
